@@ -348,7 +348,7 @@ func c12OperatorInput(c *an.Ctx) {
 	}
 	isProducer := func(call *ssa.Call) bool {
 		sc := call.Call.StaticCallee()
-		return sc != nil && relPkg(sc) == pkgWAF && (sc.Name() == "transformArg" || sc.Name() == "transformMultiMatchArg")
+		return sc != nil && relPkg(sc) == pkgWAF && (sc.Name() == "transformArg" || sc.Name() == "transformMultiMatchArg" || sc.Name() == "executeTransformationsMultimatch" || sc.Name() == "executeTransformations")
 	}
 	n := 0
 	an.Instrs(fn, func(in ssa.Instruction) {
